@@ -157,10 +157,16 @@ def gen_registry(seed, n_base=3, n_derived=2, prefix='G', big=False):
     types.append(gen_type(rnd, sg, used, 'single'))
     derived_pairs = set()
     for j in range(n_derived):
-        for _ in range(20):
+        for attempt in range(20):
             op = rnd.choice(['*', '/'])
             l = rnd.choice(names[:n_base] + (['Amount'] if op == '/' else []))
             r = rnd.choice(names[:n_base])
+            if n_derived >= 2 and j == 0 and attempt == 0:
+                # forced: the first derived type is a SQUARE (X * X has its own code path in the macro)
+                op, l, r = '*', names[0], names[0]
+            elif n_derived >= 2 and j == 1 and attempt == 0:
+                # forced: the second one is a quotient of two different types (all four operator instances distinct)
+                op, l, r = '/', names[0], names[1 % n_base]
             if l == 'Amount' and op == '*':
                 continue
             # avoid incoherent environments (two definitions generating the same impl)
